@@ -38,7 +38,8 @@ def spec_set(name):
 def instances():
     kw = spec_set("Keyword")
     bang = spec_set("BangOp")
-    ids = ["a", "Z", "_", "_a1", "foo_Bar9", "x" * 40, "0abc", "32Bit", "9_", "classy", "defx", "inty", "trueish", "NAME", "iff", "e", "b0", "x0b"]
+    ids = ["a", "Z", "_", "_a1", "foo_Bar9", "x" * 40, "0abc", "32Bit", "9_", "classy", "defx", "inty", "trueish", "NAME", "iff", "e", "b0", "x0b",
+           "elsewhere", "endifMarker", "defined", "ifdefx", "ifndefy", "elsex", "8bit", "32bits", "2in", "16int", "1if", "8assert", "3class", "7def", "0let"]
     ints = ["0", "7", "42", "007", "+3", "-5", "-0", "0x0", "0xff", "0XDEADbeef".replace("0X", "0x"), "0x1F", "0b0", "0b101", "0b00011",
             "9223372036854775807", "9223372036854775808", "18446744073709551615", "-9223372036854775808", "0xFFFFFFFFFFFFFFFF",
             "0x8000000000000000", "0b1" + "0" * 63, "0b" + "1" * 64]
@@ -72,6 +73,21 @@ def sequences(tier, seed):
         for s1 in SEPS:
             out.append((s1, [(lex, k)], [rng.choice(SEPS + [""])]))
             out.append((rng.choice(SEPS + [""]), [(lex, k)], [s1]))
+    # two tokens with NOTHING between them: the reference lexer (not this generator) says how the concatenation splits
+    # ("#" + "elsewhere" is a paste and an identifier; "8" + "bit" is one identifier; "-" + "5" one number ...)
+    glue = [i for i in inst if not i[1].startswith("kw:else")]
+    hashes = [i for i in inst if i[0] == "#"]
+    idents = [i for i in inst if i[1] == "id" or i[1].startswith("kw:")]
+    for a in hashes:
+        for b in idents:
+            if b[0] not in ("else", "ifdef", "ifndef", "endif", "define"):
+                out.append(("", [a, b], ["", " "]))
+                out.append(("", [b, a, b], ["", "", "\n"]))
+    for _ in range(3000 if quick else 60000):
+        a, b = rng.choice(glue), rng.choice(glue)
+        if a[0] == "#" and b[0] in ("else", "ifdef", "ifndef", "endif", "define"):
+            continue
+        out.append((rng.choice(["", " "]), [a, b], ["", rng.choice(["", "\n"])]))
     # two tokens with every separator between them (instances seeded), three tokens seeded
     n2 = 6000 if quick else 120000
     for _ in range(n2):
@@ -135,6 +151,8 @@ def check_c14(tier, seed):
     quick = tier == "quick"
     seqs = sequences(tier, seed)
     texts = [render(s) for s in seqs]
+    # a sequence with two tokens glued together may be lexically invalid ("!eq" + "0let"): then it carries no expectation
+    glued = {i for i, sq in enumerate(seqs) if "" in sq[2][:len(sq[1]) - 1]}
     # direction B on real-world data: lines of the corpus
     rng = random.Random("%d/c14lines" % seed)
     lines = []
@@ -159,7 +177,7 @@ def check_c14(tier, seed):
     rejected = 0
     for i, x in verdicts.items():
         if x["verdict"] == "no-expectation":
-            if i < ngen:
+            if i < ngen and i not in glued:
                 noexp_gen += 1
                 if noexp_gen <= 3:
                     log("generator/spec disagreement: the reference finds an invalid token in generated %r" % texts[i][:80])
